@@ -21,9 +21,9 @@ pub open spec fn in_range(a: Option<usize>, b: Option<usize>, len: int) -> bool 
 SPEC_STR = r"""
     ensures
         in_range(maybe_start, maybe_end, s@.len() as int) ==> (r matches Ok(x) && x.source is None
-            && (x.v matches Value::Str(o) && o@ == s@.subrange(lo(maybe_start), hi(maybe_end, s@.len() as int)))), // [C11:string_range_read_inside_the_domain_has_length_b_minus_a_and_kth_byte_s_a_plus_k]
+            && (x.v matches Value::Str(o) && o@ == s@.subrange(lo(maybe_start), hi(maybe_end, s@.len() as int)))), // [C11_C15:string_range_read_inside_the_domain_has_length_b_minus_a_and_kth_byte_s_a_plus_k]
         !in_range(maybe_start, maybe_end, s@.len() as int) ==> (r matches Err(e)
-            && e == (Error::RangeOutOfStringBounds{start: lo(maybe_start) as usize, end: hi(maybe_end, s@.len() as int) as usize})), // [C11:string_range_read_outside_the_domain_is_a_reported_error_naming_the_bounds]
+            && e == (Error::RangeOutOfStringBounds{start: lo(maybe_start) as usize, end: hi(maybe_end, s@.len() as int) as usize})), // [C11_C15:string_range_read_outside_the_domain_is_a_reported_error_naming_the_bounds]
 """
 SPEC_LIST = r"""
     ensures
